@@ -244,6 +244,7 @@ def _run(prop, tier, prof, replay_path, t0, sd, work):
         vlib.write_evidence(prop, tier, "model_checking",
                             {"states": (verify or {}).get("distinct", 1), "transitions": (verify or {}).get("generated", 1),
                              "traces_validated_against_impl": hg.beh, "hang": {"behaviour": hg.beh, "step": hg.step},
+                             "samples": [cut],
                              "exhaustive": False},
                             time.time() - t0, 1, prof.get("assumptions", []))
         return 1
